@@ -38,7 +38,9 @@ def mutate_line(rnd, line):
         k = rnd.randrange(len(fields))
         body = body.replace(fields[k], fields[k] + " " + fields[k], 1)
     elif r < 0.45 and len(fields) >= 2:     # empty operand
-        body = body[:body.find(fields[-1])] if ";" not in body else body.split(";")[0].rstrip().rsplit(None, 1)[0] + " "
+        head = body.split(";")[0].rstrip()
+        parts = head.rsplit(None, 1)
+        body = (parts[0] + " ") if len(parts) == 2 else " "
     elif r < 0.55:                          # unterminated string / stray quote
         k = rnd.randrange(len(body) + 1)
         body = body[:k] + rnd.choice(['"', "'", "/"]) + body[k:]
